@@ -66,11 +66,44 @@ def extract_table(cf, rep):
             return ("bin", "!=" if c[1] == "==" else "==", c[2], c[3])
         if c[0] == "un" and c[1] == "!":
             return c[2]
+        if c[0] == "bin" and c[1] == "&&":
+            return ("bin", "||", negate(c[2]), negate(c[3]))        # De Morgan; resolved against the other conjuncts in conj()
+        if c[0] == "bin" and c[1] == "||":
+            return ("bin", "&&", negate(c[2]), negate(c[3]))
         raise AnalysisError(f"ptnghb: else-branch of a compound condition not understood: {show(c)}")
 
     def conj(cs):
-        out = None
+        # flatten conjunctions; a disjunction (from the else-branch of `if (a && b)`) is resolved when the other conjuncts contradict all
+        # but one of its members:  (i == 0 || j == 0) && i != 0   ==   j == 0 && i != 0
+        flat = []
+
+        def fl(c):
+            if c[0] == "bin" and c[1] == "&&":
+                fl(c[2])
+                fl(c[3])
+            else:
+                flat.append(c)
         for c in cs:
+            fl(c)
+        atoms_ = [c for c in flat if not (c[0] == "bin" and c[1] == "||")]
+        for d in [c for c in flat if c[0] == "bin" and c[1] == "||"]:
+            members = []
+
+            def fo(c):
+                if c[0] == "bin" and c[1] == "||":
+                    fo(c[2])
+                    fo(c[3])
+                else:
+                    members.append(c)
+            fo(d)
+            alive = [m_ for m_ in members if negate(m_) not in atoms_]
+            if any(m_ in atoms_ for m_ in members):
+                continue                # already implied
+            if len(alive) != 1:
+                raise AnalysisError(f"ptnghb: guard with an unresolved disjunction: {show(d)}")
+            atoms_.append(alive[0])
+        out = None
+        for c in atoms_:
             out = c if out is None else ("bin", "&&", out, c)
         return out
 
